@@ -32,6 +32,7 @@ F = [
  ("C13","F33","fixed",commit("nil reference node"),"known/C13/F33-insertafter-nil.json","InsertAfter(p, nil, c) panicked (method call on the nil reference) although a reference that is not a child means append; reported as a by-product by a round-6 seeding sub-agent, then generated by the check once nil references were drawn for all three insertion calls"),
  ("C13","F33b","fixed",commit("nil reference node"),"known/C13/F33-replacechild-nil.json","ReplaceChild(p, nil, c) appended c and then panicked in RemoveChild(nil)"),
  ("C09","F34","fixed",commit("rendered without a trailing newline"),"known/C09/F34-html-block-at-eof-no-newline.json","with WithUnsafe, an HTML block whose last line ends the input without a line ending ('<!-- x -->', '<?php x ?>', '<script>x</script>') was rendered without a trailing newline, so rendering A alone differed from its part of the rendering of A, blank line, heading, blank line, B; reported as a by-product by two round-6 seeding sub-agents (C09, C10), then generated by the check once closed documents may end without a final line ending"),
+ ("C02","F35","fixed",commit("sees the container marker"),"known/C02/F35-flanking-after-bare-quote-marker.json","'>*a' LF '>*)': BlockReader.PrecendingCharacter returned the byte physically in front of a continuation line (the bare '>' marker, punctuation), so a delimiter run at the beginning of that line counted as right-flanking and closed emphasis; with the equivalent spelling '> ' it did not (reported as a by-product by a round-6 seeding sub-agent; rediscovered by the multi-line emphasis tier added for it)"),
  ("C17","F22","fixed",commit("table header"),"known/C17/F22-short-header.json","a header row with fewer cells than the delimiter row was padded and became a table"),
  ("C18","F11","fixed",commit("SetPosition/SetPadding"),"known/C18/F11-setposition-stale-peek.json","source reader SetPosition kept the stale peeked line / line head"),
  ("C18","F23","fixed",commit("ResetPosition"),"known/C18/F23-resetposition.json","source reader ResetPosition resumed at the end of the current line instead of the start of the source"),
